@@ -13,7 +13,7 @@
  * Scheduling granularity (controlled modes): every access to an entry is made under the hash-table bucket lock, so
  * the operations interleave as whole critical sections.  The library's own yield points are therefore switched off
  * and the harness yields (a) between two operations of a thread and (b) inside __data_repo_lookup_entry_and_create
- * between its two critical sections: the second call of the (harness-owned) key_hash function in that operation.
+ * between its two critical sections: the third call of the (harness-owned) key_hash function in that operation.
  * Reclamations are observed through the PARSEC_VERIF_EVENT hook at the two reclamation sites.
  */
 #include "parsec/parsec_config.h"
@@ -53,7 +53,10 @@ static char *key_print(char *buf, size_t n, parsec_key_t k, void *d) { (void)d; 
 static uint64_t key_hash(parsec_key_t k, void *d)
 {
     (void)d;
-    if( controlled && in_create && 2 == ++hash_calls ) vs_yield();     /* the window between the two critical sections */
+    /* calls made by __data_repo_lookup_entry_and_create: #1 first lock_bucket_handle, #2 (only after a miss, under the
+     * bucket lock) the search of the old tables, #3 the second lock_bucket_handle, before it takes the bucket lock:
+     * the window between the two critical sections */
+    if( controlled && in_create && 3 == ++hash_calls ) vs_yield();
     return (uint64_t)k * 0x9E3779B97F4A7C15ULL;
 }
 static parsec_key_fn_t key_fns = { key_equal, key_print, key_hash };
